@@ -30,6 +30,10 @@ func runC18(c *eng.Ctx) {
 	ruleSentinelIdentity(c, "R14.6", []string{"server.(*activityManager).dispatch"}, "the dispatcher no longer recognises an entry that Raft log compaction removed: it panics as soon as the server is elected — on a log that starts behind a snapshot, after every restart")
 	c.Rule("R18.3", "K2")
 	ruleLeadershipChannelIsClosedOnce(c)
+	ruleSteppingDownAlwaysStopsTheDispatcher(c)
+	c.Rule("R16.5", "K1")
+	ruleForeignAckNeverCompletesAPublish(c)
+	rulePublishWaitsForTheMessagesOwnStream(c)
 	p := c.P
 	// ---- R18.1
 	c.Rule("R18.1", "K6")
